@@ -113,18 +113,34 @@ def index_name(gen: ast.comprehension) -> Optional[str]:
     return None
 
 
-def zip_unpack_comp(value: ast.AST) -> Optional[ast.ListComp]:
-    """``map(<list-ifier>, zip(*[ELT for .. in <pop iter>]))`` -> the inner comprehension."""
+def zip_unpack_comp(value: ast.AST, fnode=None) -> Optional[ast.ListComp]:
+    """``map(<list-ifier>, zip(*[ELT for .. in <pop iter>]))`` / ``[list(g) for g in zip(*[..])]`` / ``zip(*[..])`` -> the
+    inner comprehension (also when it is held by a local bound once)."""
+    def star_comp(z):
+        if isinstance(z, ast.Call) and isinstance(z.func, ast.Name) and z.func.id == "zip" and len(z.args) == 1 \
+                and isinstance(z.args[0], ast.Starred):
+            inner = z.args[0].value
+            if isinstance(inner, ast.Name) and fnode is not None:
+                from .flow import origin
+                inner = origin(fnode, inner)
+            if isinstance(inner, ast.ListComp):
+                return inner
+        return None
     v = value
     if isinstance(v, ast.Call) and isinstance(v.func, ast.Name) and v.func.id == "map" and len(v.args) == 2:
-        z = v.args[1]
-        if isinstance(z, ast.Call) and isinstance(z.func, ast.Name) and z.func.id == "zip" and len(z.args) == 1 \
-                and isinstance(z.args[0], ast.Starred) and isinstance(z.args[0].value, ast.ListComp):
-            return z.args[0].value
-    if isinstance(v, ast.Call) and isinstance(v.func, ast.Name) and v.func.id == "zip" and len(v.args) == 1 \
-            and isinstance(v.args[0], ast.Starred) and isinstance(v.args[0].value, ast.ListComp):
-        return v.args[0].value
-    return None
+        f0 = v.args[0]
+        listifier = (isinstance(f0, ast.Name) and f0.id in ("list", "tuple")) or (
+            isinstance(f0, ast.Lambda) and len(f0.args.args) == 1 and isinstance(f0.body, ast.Call) and isinstance(f0.body.func, ast.Name)
+            and f0.body.func.id in ("list", "tuple"))
+        if listifier:
+            return star_comp(v.args[1])
+        return star_comp(v.args[1])
+    if isinstance(v, ast.ListComp) and len(v.generators) == 1 and not v.generators[0].ifs and isinstance(v.elt, ast.Call) \
+            and isinstance(v.elt.func, ast.Name) and v.elt.func.id in ("list", "tuple") and len(v.elt.args) == 1 \
+            and isinstance(v.elt.args[0], ast.Name) and isinstance(v.generators[0].target, ast.Name) \
+            and v.elt.args[0].id == v.generators[0].target.id:
+        return star_comp(v.generators[0].iter)
+    return star_comp(v)
 
 
 # ---------------------------------------------------------------------------------------------
@@ -169,7 +185,7 @@ def shaped_fields(prog: Program, ctx: ClassInfo) -> set:
                                     ok = False
                                     v = n.value
                                     if isinstance(t, (ast.Tuple, ast.List)):
-                                        comp = zip_unpack_comp(v)
+                                        comp = zip_unpack_comp(v, f.node)
                                         ok = comp is not None and len(comp.generators) == 1 and not comp.generators[0].ifs \
                                             and pop_iter(comp.generators[0].iter) is not None
                                     elif isinstance(v, ast.ListComp) and len(v.generators) == 1 and not v.generators[0].ifs \
@@ -312,7 +328,7 @@ def len_class(prog: Program, ctx: ClassInfo, w: PopWrite, shaped: set) -> tuple:
         return "SHRINK", "deletes / replaces a slice"
     v = w.value
     if w.kind == "multi-assign":
-        comp = zip_unpack_comp(v)
+        comp = zip_unpack_comp(v, w.fi.node)
         if comp is not None and len(comp.generators) == 1:
             return _comp_len(w.fi, comp, shaped)
         return "UNKNOWN", "tuple assignment of unknown shape"
@@ -555,7 +571,7 @@ def keeps_best(prog: Program, ctx: ClassInfo, w: PopWrite, K: Keeps) -> tuple:
     if w.kind == "assign" and isinstance(v, ast.ListComp):
         comp = v
     elif w.kind == "multi-assign":
-        comp = zip_unpack_comp(v)
+        comp = zip_unpack_comp(v, w.fi.node)
         st = w.stmt
         first = st.targets[0].elts[0] if isinstance(st.targets[0], (ast.Tuple, ast.List)) else None
         if first is None or dotted(first) != "self._population":
